@@ -250,6 +250,11 @@ tree_node_t *fstree_add_generic(fstree_t *fs, const sqfs_dir_entry_t *ent,
 		return NULL;
 	}
 
+	if (ent->uid > 0x0FFFFFFFFUL || ent->gid > 0x0FFFFFFFFUL) {
+		errno = EOVERFLOW;
+		return NULL;
+	}
+
 	if (ent->name[0] == '\0') {
 		child = fs->root;
 		assert(child != NULL);
